@@ -106,7 +106,10 @@ class SyncTasks(Tasks):
 
         def schedule_save():
             """Save sensors and schedule a new save."""
-            save_sensors()
+            try:
+                save_sensors()
+            except Exception:  # pylint: disable=broad-except
+                _LOGGER.exception("Saving sensors failed")
             scheduler = threading.Timer(10.0, schedule_save)
             scheduler.start()
             self._cancel_save = scheduler.cancel
@@ -191,6 +194,11 @@ class AsyncTasks(Tasks):
             while True:
                 try:
                     await loop.run_in_executor(None, save_sensors)
+                except asyncio.CancelledError:
+                    break
+                except Exception:  # pylint: disable=broad-except
+                    _LOGGER.exception("Saving sensors failed")
+                try:
                     await asyncio.sleep(10.0)
                 except asyncio.CancelledError:
                     break
